@@ -29,13 +29,24 @@ type Op struct {
 	K     string      `json:"k"` // W F FB FE LC FC MO MS R | BG (background tick) | MOB (the tick's non-forced merge)
 	Rows  []tsdrv.Row `json:"rows,omitempty"`
 	Level int         `json:"level,omitempty"`
-	Bg    bool        `json:"bg,omitempty"`  // a step the background tick (real planner, real schedule) made
-	X     *XRead      `json:"x,omitempty"`   // K = "X": an explicit statement-level read (corpus witnesses)
-	Agg   []XAgg      `json:"agg,omitempty"` // aggregate results observed after the op (file-cursor path)
+	Bg    bool        `json:"bg,omitempty"`    // a step the background tick (real planner, real schedule) made
+	X     *XRead      `json:"x,omitempty"`     // K = "X": an explicit statement-level read (corpus witnesses)
+	Agg   []XAgg      `json:"agg,omitempty"`   // aggregate results observed after the op (file-cursor path)
+	Reads []ReadObs   `json:"reads,omitempty"` // shaped reads observed after the op (replayed on the model's read_layout)
 	// observations after the op
 	Files []tsdrv.File              `json:"files"`
 	Dump  map[string][]tsdrv.OutRow `json:"dump"` // all fields, full range, ascending; key = series
 	Err   string                    `json:"err,omitempty"`
+}
+
+// ReadObs: one shaped read as delivered: per series the rows in delivery order
+type ReadObs struct {
+	Tmin   int                       `json:"tmin"`
+	Tmax   int                       `json:"tmax"`
+	Fields []int                     `json:"fields"`
+	Asc    bool                      `json:"asc"`
+	Kind   string                    `json:"kind"` // plain | zone
+	Rows   map[string][]tsdrv.OutRow `json:"rows"`
 }
 
 type Fail struct {
@@ -337,6 +348,12 @@ func runHistory(idx int, work string, nser, nwal int, auto bool, in []Op, qr *ge
 				for s, rows := range d {
 					op.Dump[strconv.Itoa(s)] = rows
 				}
+			} else {
+				ro := ReadObs{Tmin: q.Tmin, Tmax: q.Tmax, Fields: q.Fields, Asc: q.Asc, Kind: "plain", Rows: map[string][]tsdrv.OutRow{}}
+				for s, rows := range d {
+					ro.Rows[strconv.Itoa(s)] = rows
+				}
+				op.Reads = append(op.Reads, ro)
 			}
 			if q.Flat && q.Parallel == 1 { // one merged stream: globally sorted by time
 				for k := 1; k < len(arrival); k++ {
@@ -364,8 +381,9 @@ func runHistory(idx int, work string, nser, nwal int, auto bool, in []Op, qr *ge
 			h.XKinds[op.X.Kind]++
 		}
 		if xreads && qr.Chance(2, 3) {
-			xf, n, aggs := extraReads(i, sh, lww, qr, nser, files, h.XKinds)
+			xf, n, aggs, zone := extraReads(i, sh, lww, qr, nser, files, h.XKinds)
 			op.Agg = append(op.Agg, aggs...)
+			op.Reads = append(op.Reads, zone...)
 			h.XOracle = append(h.XOracle, xf...)
 			h.XReads += n
 		}
